@@ -1,49 +1,20 @@
 package main
 
 import (
-	"bytes"
 	"fmt"
 
 	"github.com/cocosip/go-dicom-codecs/jpeg2000"
-	"verif/internal/gen"
 )
 
-func rt(w, h, tw, th, c, p, levels, layers, cb int, mct bool, seed uint64) string {
-	s := gen.Content(gen.New(seed), "noise", w, h, c, p, 0)
-	px := gen.Pack(s, p)
-	pr := jpeg2000.DefaultEncodeParams(w, h, c, p, false)
-	pr.NumLevels = levels
-	pr.NumLayers = layers
-	pr.EnableMCT = mct
-	pr.TileWidth, pr.TileHeight = tw, th
-	pr.CodeBlockWidth, pr.CodeBlockHeight = cb, cb
-	cs, err := jpeg2000.NewEncoder(pr).Encode(px)
-	if err != nil {
-		return "E"
-	}
-	d := jpeg2000.NewDecoder()
-	if err := d.Decode(cs); err != nil {
-		return "D"
-	}
-	if bytes.Equal(d.GetPixelData(), px) {
-		return "."
-	}
-	return "x"
-}
-
 func main() {
-	for _, cb := range []int{4, 8, 16, 32, 64} {
-		fmt.Printf("levels=0 cb=%d W=64 H=8 th=8 tw=1..64:\n", cb)
-		for tw := 1; tw <= 64; tw++ {
-			fmt.Print(rt(64, 8, tw, 8, 1, 8, 0, 1, cb, false, 1))
+	for _, bd := range []int{8, 16} {
+		for _, lv := range []int{0, 1, 2, 5} {
+			q := jpeg2000.CalculateOpenJPHQuantizationParams(lv, bd, true)
+			fmt.Printf("bd=%d levels=%d guard=%d exps=", bd, lv, q.GuardBits)
+			for _, s := range q.EncodedSteps {
+				fmt.Printf("%d ", s>>3)
+			}
+			fmt.Println()
 		}
-		fmt.Println()
-	}
-	for _, cb := range []int{4, 8, 16} {
-		fmt.Printf("levels=0 cb=%d W=8 H=64 tw=8 th=1..64:\n", cb)
-		for th := 1; th <= 64; th++ {
-			fmt.Print(rt(8, 64, 8, th, 1, 8, 0, 1, cb, false, 1))
-		}
-		fmt.Println()
 	}
 }
